@@ -184,3 +184,69 @@ Example C11_nonvacuous :
   | Err _ => false
   end = true.
 Proof. vm_compute. reflexivity. Qed.
+
+From NurbsV Require Import Spec.BSpline Proofs.Local Proofs.IntegralProofs.
+From NurbsV Require Proofs.MatProofs.
+(* ---- the model's inner product IS the L2 product (Proofs/IntegralProofs.v): on a span a B-spline is the polynomial NlocP; with
+   p + q + 3 open Newton-Cotes nodes per cell the accumulated Gram entries equal the sum over the cells of the common partition of
+   the exact integrals of the products - always for GF, and for FF / GG when the degrees differ by at most 2 (beyond that the
+   rule is too short: known finding K7).  `knots_exact` excludes distinct knots closer than the library's 1e-6 identity
+   tolerance (K2), for which a cell can hide a knot. ---- *)
+Theorem C11_basis_is_polynomial_on_span :
+  forall (U : nat -> Q) (s j i : nat) (u : Q), peval (NlocP U s j i) u == Nloc U s j i u.
+Proof. exact NlocP_eval. Qed.
+Print Assumptions C11_basis_is_polynomial_on_span.
+
+Theorem C11_span_gram_is_exact_integral :
+  forall (U V : nat -> Q) (s s' p q i j n : nat) (x w : list Q) (a b : Q),
+       compute_open n = Ok w ->
+       open_linspace n = Ok x ->
+       (p + q + 1 <= n)%nat ->
+       (b - a) *
+       MatProofs.sumn n
+         (fun k : nat =>
+          nth k w 0 * Nloc U s p i (a + (b - a) * nth k x 0) * Nloc V s' q j (a + (b - a) * nth k x 0)) ==
+       pint a b (pmul (NlocP U s p i) (NlocP V s' q j)).
+Proof. exact gram_span_exact_open. Qed.
+Print Assumptions C11_span_gram_is_exact_integral.
+
+Theorem C11_gram_matrices_are_L2_products :
+  forall (kold knew : kv) (g : grams),
+       WF (kvec kold) (kdeg kold) ->
+       WF (kvec knew) (kdeg knew) ->
+       knots_exact kold ->
+       knots_exact knew ->
+       kumin kold == kumin knew ->
+       kumax kold == kumax knew ->
+       grams_of kold knew = Ok g ->
+       let PF :=
+         fun (se : Q * Q) (j : nat) => NlocP (nthq (kvec kold)) (span_at (kvec kold) (fst se)) (kdeg kold) j
+         in
+       let PG :=
+         fun (se : Q * Q) (i : nat) => NlocP (nthq (kvec knew)) (span_at (kvec knew) (fst se)) (kdeg knew) i
+         in
+       (forall i j : nat,
+        (i < knpts knew)%nat ->
+        (j < knpts kold)%nat ->
+        entry (gGF g) i j ==
+        qsum (map (fun se : Q * Q => pint (fst se) (snd se) (pmul (PG se i) (PF se j))) (ls_cells kold knew))) /\
+       ((kdeg kold <= kdeg knew + 2)%nat ->
+        forall i j : nat,
+        (i < knpts kold)%nat ->
+        (j < knpts kold)%nat ->
+        entry (gFF g) i j ==
+        qsum (map (fun se : Q * Q => pint (fst se) (snd se) (pmul (PF se i) (PF se j))) (ls_cells kold knew))) /\
+       ((kdeg knew <= kdeg kold + 2)%nat ->
+        forall i j : nat,
+        (i < knpts knew)%nat ->
+        (j < knpts knew)%nat ->
+        entry (gGG g) i j ==
+        qsum (map (fun se : Q * Q => pint (fst se) (snd se) (pmul (PG se i) (PG se j))) (ls_cells kold knew))).
+Proof. exact grams_of_L2. Qed.
+Print Assumptions C11_gram_matrices_are_L2_products.
+
+Theorem C11_cells_tile_interval :
+  forall (f : poly) (l : list Q) (a : Q),
+       qsum (map (fun se : Q * Q => pint (fst se) (snd se) f) (pairs (a :: l))) == pint a (last (a :: l) 0) f.
+Proof. exact pairs_telescope. Qed.
+Print Assumptions C11_cells_tile_interval.
